@@ -77,3 +77,9 @@ def fill(claim, NA):
         "Trusted: CrossHair+z3 (finite structure space, completeness certified); reference markup scanner; element trees and bs4 emission as contracts.",
         "CrossHair symbolic execution + z3 over node-kind sequences and tree shapes",
     )
+    claim(
+        "C07",
+        "Bounded symbolic execution of DFXP document assembly on a recording stub of bs4: every style value of 1-2 characters over the XML-relevant alphabet yields well-formed hand-assembled span markup and well-formed attribute content in styling/p elements (DFXP and legacy writers); for all layout combinations over the four levels, positioned spans, 1-2 languages, identical timespans and force=, region/style references resolve to exactly one definition, ids are unique, every region is referenced, one div per written language and one p per caption (run).",
+        "Trusted: CrossHair+z3; bs4's verbatim emission with formatter=None and lxml's parse of the constant skeleton (contracts; counterexamples replayed through the real writer + lxml.etree). Ids are not symbolic.",
+        "CrossHair symbolic execution + z3 over attribute strings and layout selectors",
+    )
